@@ -1292,7 +1292,10 @@ class Quaternion(np.ndarray):
         q**a : numpy.ndarray
             Quaternion :math:`\\mathbf{q}` to the power of ``a``
         """
-        return np.e**(a*self.logarithm)
+        log_q = a*self.logarithm
+        if not np.any(log_q):
+            return np.array([1.0, 0.0, 0.0, 0.0])
+        return Quaternion(log_q, versor=False).exponential
 
     def is_pure(self) -> bool:
         """
